@@ -161,6 +161,13 @@ class SNMPClientProtocol(asyncio.DatagramProtocol):
             raise Timeout(
                 f"{timeout} second timeout exceeded on UDP transport."
             ) from exc
+        except Exception:
+            # The future was completed with an error (f.ex. an ICMP
+            # "port unreachable" via error_received). Nobody else closes the
+            # socket in that case.
+            if self.transport:
+                self.transport.abort()
+            raise
 
 
 async def send_udp(
